@@ -60,7 +60,7 @@ class TraceVerdict:
         self.transitions = 0
 
 
-def validate(programs_events, module, nproc=16, tag=None, timeout=3600, extra_files=None):
+def validate(programs_events, module, nproc=16, tag=None, timeout=3600, extra_files=None, env=None):
     """programs_events: list of event lists (one per program, starting with Reset)."""
     v = TraceVerdict()
     total = sum(len(p) for p in programs_events)
@@ -83,7 +83,7 @@ def validate(programs_events, module, nproc=16, tag=None, timeout=3600, extra_fi
             json.dump(chunks[k], f)
         cfg = 'SPECIFICATION TraceSpec\nPOSTCONDITION Post\nCHECK_DEADLOCK FALSE\n'
         results[k] = tlc.run(module, cfg_text=cfg, workdir=wd, workers=1, timeout=timeout,
-                             env={'TRACE_FILE': path}, heap='3g', tag='%s-%d' % (tag or module, k),
+                             env=dict(env or {}, TRACE_FILE=path), heap='3g', tag='%s-%d' % (tag or module, k),
                              files=extra_files)
     threads = [threading.Thread(target=work, args=(k,)) for k in range(nchunks)]
     for t in threads:
